@@ -4,8 +4,9 @@ Import ListNotations.
 Require Import MV.Lower.Lang MV.Lower.LangProofs MV.Lower.Passes.
 
 Scheme stmt_ind2 := Induction for stmt Sort Prop
-  with block_ind2 := Induction for block Sort Prop.
-Combined Scheme stmt_block_ind from stmt_ind2, block_ind2.
+  with block_ind2 := Induction for block Sort Prop
+  with blocks_ind2 := Induction for blocks Sort Prop.
+Combined Scheme stmt_block_ind from stmt_ind2, block_ind2, blocks_ind2.
 
 (* programs before any lowering: no flags *)
 Definition plain_cond (c : cond) : bool := match c with CUser _ => true | _ => false end.
@@ -25,8 +26,9 @@ Proof. unfold bflag; lia. Qed.
 Lemma ceval_plain c s s' d : plain_cond c = true -> ceval c s d = ceval c s' d.
 Proof. destruct c; simpl; try discriminate; reflexivity. Qed.
 
-Lemma brk_mono :
-  (forall st f k, snd (fst (brk_stmt f k st)) >= k) /\ (forall b f k, snd (fst (brk_block f k b)) >= k).
+Lemma brk_mono3 :
+  (forall st f k, snd (fst (brk_stmt f k st)) >= k) /\ (forall b f k, snd (fst (brk_block f k b)) >= k)
+  /\ (forall h f k, snd (fst (brk_blocks f k h)) >= k).
 Proof.
   apply stmt_block_ind.
   - intros l f k; simpl; lia.
@@ -42,11 +44,27 @@ Proof.
   - intros f k; simpl; lia.
   - intros f k; simpl; lia.
   - intros l f k; simpl; lia.
+  - (* STry *) intros body IH1 hs IH2 orelse IH3 final IH4 f k; simpl.
+    destruct (brk_block f k body) as [[b1 k1] u1] eqn:E1. destruct (brk_blocks f k1 hs) as [[b2 k2] u2] eqn:E2.
+    destruct (brk_block f k2 orelse) as [[b3 k3] u3] eqn:E3. destruct (brk_block f k3 final) as [[b4 k4] u4] eqn:E4.
+    pose proof (IH1 f k) as A1. pose proof (IH2 f k1) as A2. pose proof (IH3 f k2) as A3. pose proof (IH4 f k3) as A4.
+    rewrite E1 in A1; rewrite E2 in A2; rewrite E3 in A3; rewrite E4 in A4; simpl in *; lia.
+  - (* SWith *) intros l body IH f k; simpl.
+    destruct (brk_block f k body) as [[b1 k1] u1] eqn:E1. pose proof (IH f k) as A. rewrite E1 in A; simpl in *; lia.
+  - (* SRaise *) intros l f k; simpl; lia.
   - intros f k; simpl; lia.
   - intros st IH1 r IH2 f k; simpl.
     destruct (brk_stmt f k st) as [[s' k1] u1] eqn:E1. destruct (brk_block f k1 r) as [[r' k2] u2] eqn:E2.
     pose proof (IH1 f k) as A. pose proof (IH2 f k1) as B. rewrite E1 in A; rewrite E2 in B; simpl in *; lia.
+  - intros f k; simpl; lia.
+  - intros b IH1 r IH2 f k; simpl.
+    destruct (brk_block f k b) as [[b' k1] u1] eqn:E1. destruct (brk_blocks f k1 r) as [[r' k2] u2] eqn:E2.
+    pose proof (IH1 f k) as A. pose proof (IH2 f k1) as B. rewrite E1 in A; rewrite E2 in B; simpl in *; lia.
 Qed.
+
+Lemma brk_mono :
+  (forall st f k, snd (fst (brk_stmt f k st)) >= k) /\ (forall b f k, snd (fst (brk_block f k b)) >= k).
+Proof. split; [exact (proj1 brk_mono3) | exact (proj1 (proj2 brk_mono3))]. Qed.
 
 Definition bo (o : outcome) : outcome := match o with OBrk => OCont | _ => o end.
 
